@@ -72,7 +72,8 @@ struct G {
       int64_t rxcap = r.pct((unsigned)sh.rxcap_small_pct) ? r.range(64, 4096) : 0;
       add(mk("connect", i, {(int64_t)uid, (int64_t)uid, 1000 + i, (sh.fdpass_pct && r.pct((unsigned)sh.fdpass_pct)) ? 1 : 0, rxcap}));
       add(mk("auth", i, {1}));
-      add(mk("hello", i, {-1}));
+      // (a Hello may carry flags like any call: NO_REPLY_EXPECTED, NO_AUTO_START, ALLOW_INTERACTIVE_AUTHORIZATION)
+      add(mk("hello", i, {-1, r.pct(10) ? (int64_t)r.range(1, 7) : 0}));
       if (!interleaved) { add(bus_step(3)); add(mk("drain", i)); }
     }
     if (interleaved) {
@@ -307,7 +308,7 @@ Plan gen_c03(uint64_t seed, bool th) {
     g.add(g.mk("connect", i, {0, 0, 1000 + i, 0, 0}));
     g.add(g.mk("auth", i, {1}));
     int k = (int)g.r.below(100);
-    if (k < 70) g.add(g.mk("hello", i, {-1}));
+    if (k < 70) g.add(g.mk("hello", i, {-1, g.r.pct(12) ? (int64_t)g.r.range(1, 7) : 0}));
     else if (k < 85) { g.add(g.mk("hello", i, {-1})); g.add(g.mk("hello", i, {-1})); }
     else g.add(g.mk("send", i, {1, 0, -1}, {"$u" + std::to_string(g.a_client()), "/", "com.example.Iface", "Early", "", ""}));
     if (g.r.pct(60)) { g.add(g.bus_step(3)); g.add(g.mk("drain", i)); }
@@ -330,7 +331,22 @@ Plan gen_c03(uint64_t seed, bool th) {
     g.add(g.mk("becomemonitor", ni, {0, -1}, {}));
     g.add(g.bus_step(3));
     g.sh.nclients--;     // never picked as an ordinary actor afterwards
-    msg_ops(g, (int)g.r.range(8, th ? 60 : 26), g.r.pct(50), true, true, true);
+    msg_ops(g, (int)g.r.range(4, th ? 30 : 13), g.r.pct(50), true, true, true);
+    g.sh.nclients++;
+    if (g.r.pct(60)) {
+      // somebody arrives while the monitor (and perhaps an eavesdropper) is watching: its Hello - plain, flagged
+      // NO_REPLY_EXPECTED, or carrying a forged SENDER - is shown with the unique name it is given
+      int nj = g.sh.nclients++;
+      g.add(g.mk("connect", nj, {0, 0, 1000 + nj, 0, 0}));
+      g.add(g.mk("auth", nj, {1}));
+      g.add(g.mk("hello", nj, {-1, g.r.pct(50) ? (int64_t)g.r.range(1, 7) : 0}));
+      g.add(g.bus_step(3));
+      g.add(g.mk("drain", nj));
+      g.add(g.mk("check"));
+      g.sh.nclients--;
+    }
+    g.sh.nclients--;
+    msg_ops(g, (int)g.r.range(4, th ? 30 : 13), g.r.pct(50), true, true, true);
     g.sh.nclients++;
   } else
   msg_ops(g, (int)g.r.range(8, th ? 60 : 26), g.r.pct(50), true, true, true);
@@ -404,7 +420,15 @@ std::string gen_rule(G &g, bool *valid_hint) {
       case 0: rule += (rule.empty() ? "" : ",") + std::string("arg0='unterminated"); break;
       case 1: rule += (rule.empty() ? "" : ",") + std::string("bogus='x'"); break;
       case 2: rule += (rule.empty() ? "" : ",") + std::string("type='broadcast'"); break;
-      case 3: rule += (rule.empty() ? "" : ",") + std::string("arg64='x'"); break;
+      case 3: {
+        // an argument index out of range: just above 63, and numbers that wrap when narrowed (2^31, 2^32, 2^32+k,
+        // 2^63, 2^64-1), alone or behind a valid arg key ("no rule text makes the bus access memory outside its buffers")
+        static const char *big[] = {"64", "300", "2147483648", "4294967296", "4294967297", "4294967359", "9223372036854775808", "18446744073709551615", "99999999999999999999999"};
+        std::string key = std::string("arg") + big[g.r.below(9)] + (g.r.pct(30) ? "path" : "");
+        if (g.r.pct(60)) rule += (rule.empty() ? "" : ",") + std::string("arg") + std::to_string(g.r.below(4)) + "='a'";
+        rule += (rule.empty() ? "" : ",") + key + "='x'";
+        break;
+      }
       case 4: rule += (rule.empty() ? "" : ",") + std::string("interface='nodots'"); break;
       case 5: rule += (rule.empty() ? "" : ",") + std::string("argx='1'"); break;
       case 6: rule = "path='/a',path_namespace='/a'"; break;
@@ -507,6 +531,7 @@ Plan gen_c13(uint64_t seed, bool th) {
   if (g.r.pct(45)) g.p.cfg["lim.names"] = std::to_string(g.r.range(1, 4));
   if (g.r.pct(45)) g.p.cfg["lim.rules"] = std::to_string(g.r.range(1, 4));
   if (g.r.pct(45)) g.p.cfg["lim.replies"] = std::to_string(g.r.range(1, 3));
+  if (g.r.pct(35)) g.p.cfg["lim.reply_timeout"] = std::to_string(g.r.pct(50) ? g.r.range(50, 2000) : 60000);   // slots are freed by replies, by the callee's departure, and by the timeout
   if (g.r.pct(30)) g.p.cfg["lim.msgsize"] = std::to_string(g.r.range(300, 2000));
   // in some plans the configuration is reloaded once with other limits (raised, lowered, removed, newly set):
   // refusals follow the limits in force, what is already held stays
@@ -606,6 +631,7 @@ std::string valid_message_bytes(G &g, uint32_t serial) {
     m = wire::Msg::method_call(serial, ":1." + std::to_string(g.r.below(6)), "/", "com.example.Iface", "Frob", {random_value(r, 0), random_value(r, 0)});
   }
   m.big_endian = g.r.pct(20);
+  if (g.r.pct(8)) m.set_field(wire::F_UNIX_FDS, wire::Value::u32(0));   // legal, and never sent by the usual libraries: "carries no descriptors", said explicitly
   return wire::marshal(m);
 }
 
